@@ -372,6 +372,152 @@ fn api_sortdocs_text(text: &str) {
     println!("OK {}", n);
 }
 
+/// api compat <max-docs> : C17 on the public API, bounded.  Documents are generated from the specification itself:
+/// a breadth-first walk from ElementType::ROOT finds sub-elements, attributes and enumeration values that exist only in
+/// some versions; for each, a minimal document containing it is built through the public API in the newest version that
+/// has it.  Oracle (the property statement, executable): for every declared target version,
+///   check_version_compatibility(target) lists nothing  <=>  the serialized text relabelled with the target's schema
+///   file name loads in strict mode;  the returned mask contains the target exactly then;  set_version(target) succeeds
+///   exactly then, leaves the content unchanged and the re-serialized file loads strictly.
+fn api_compat(args: &[String]) {
+    use autosar_data::*;
+    use autosar_data_specification::{expand_version_mask, CharacterDataSpec, ElementType};
+    use std::collections::{HashSet, VecDeque};
+    let maxdocs: usize = args.get(0).and_then(|s| s.parse().ok()).unwrap_or(300);
+    let survey = args.get(1).map(|s| s == "survey").unwrap_or(false);
+    let mut nfail = 0u64;
+    let all_versions = expand_version_mask(u32::MAX);
+    let full: u32 = all_versions.iter().fold(0u32, |a, v| a | (*v as u32));
+    #[derive(Clone)]
+    enum Extra { None, AttrEnum(AttributeName, EnumItem), AttrText(AttributeName), CdataEnum(EnumItem) }
+    struct Cand { path: Vec<(ElementName, ElementType)>, mask: u32, extra: Extra, what: String }
+    let mut cands: Vec<Cand> = Vec::new();
+    let mut seen: HashSet<ElementType> = HashSet::new();
+    let mut queue: VecDeque<(Vec<(ElementName, ElementType)>, u32)> = VecDeque::new();
+    queue.push_back((vec![(ElementName::Autosar, ElementType::ROOT)], full));
+    seen.insert(ElementType::ROOT);
+    while let Some((path, common)) = queue.pop_front() {
+        if path.len() > 14 { continue; }
+        let t = path.last().unwrap().1;
+        for (name, st, mask, _) in t.sub_element_spec_iter() {
+            let m = common & mask;
+            if m == 0 { continue; }
+            let mut p2 = path.clone();
+            p2.push((name, st));
+            if mask & common != common {
+                cands.push(Cand { path: p2.clone(), mask: m, extra: Extra::None, what: format!("element {} exists only in versions {:#x}", name, mask) });
+            }
+            if seen.insert(st) {
+                // attributes of the new type
+                for (aname, aspec, _) in st.attribute_spec_iter() {
+                    let aver = st.find_attribute_spec(aname).map(|a| a.version).unwrap_or(0);
+                    match aspec {
+                        CharacterDataSpec::Enum { items } => {
+                            for (it, im) in items.iter() {
+                                if (im & m & aver) != 0 && (*im & m != m || aver & m != m) {
+                                    cands.push(Cand { path: p2.clone(), mask: m & im & aver, extra: Extra::AttrEnum(aname, *it), what: format!("attribute {}={} exists only in versions {:#x}", aname, it, im & aver) });
+                                }
+                            }
+                        }
+                        CharacterDataSpec::String { .. } => {
+                            if aver & m != m && aver & m != 0 {
+                                cands.push(Cand { path: p2.clone(), mask: m & aver, extra: Extra::AttrText(aname), what: format!("attribute {} exists only in versions {:#x}", aname, aver) });
+                            }
+                        }
+                        _ => {}
+                    }
+                }
+                if let Some(CharacterDataSpec::Enum { items }) = st.chardata_spec() {
+                    for (it, im) in items.iter() {
+                        if im & m != 0 && im & m != m {
+                            cands.push(Cand { path: p2.clone(), mask: m & im, extra: Extra::CdataEnum(*it), what: format!("value {} of {} exists only in versions {:#x}", it, name, im) });
+                        }
+                    }
+                }
+                queue.push_back((p2, m));
+            }
+        }
+    }
+    let total_cands = cands.len();
+    // spread the budget over the kinds of candidates
+    let mut picked: Vec<&Cand> = Vec::new();
+    for kind in 0..4 {
+        let of_kind: Vec<&Cand> = cands.iter().filter(|c| matches!((&c.extra, kind), (Extra::None, 0) | (Extra::AttrEnum(..), 1) | (Extra::AttrText(..), 2) | (Extra::CdataEnum(..), 3))).collect();
+        let step = (of_kind.len() / (maxdocs / 4).max(1)).max(1);
+        picked.extend(of_kind.into_iter().step_by(step).take(maxdocs / 4));
+    }
+    let (mut built, mut compared) = (0u64, 0u64);
+    'docs: for c in picked {
+        let v0 = *expand_version_mask(c.mask).last().unwrap();
+        let model = AutosarModel::new();
+        let Ok(file) = model.create_file("f.arxml", v0) else { continue };
+        let mut cur = model.root_element();
+        let mut ok = true;
+        for (k, (name, st)) in c.path.iter().enumerate().skip(1) {
+            let r = if st.is_named_in_version(v0) { cur.create_named_sub_element(*name, &format!("n{}", k)) } else { cur.create_sub_element(*name) };
+            match r { Ok(e) => cur = e, Err(_) => { ok = false; break; } }
+        }
+        if !ok { continue; }
+        let r = match &c.extra {
+            Extra::None => Ok(()),
+            Extra::AttrEnum(a, it) => cur.set_attribute(*a, CharacterData::Enum(*it)),
+            Extra::AttrText(a) => cur.set_attribute(*a, CharacterData::String("x".to_string())),
+            Extra::CdataEnum(it) => cur.set_character_data(CharacterData::Enum(*it)),
+        };
+        if r.is_err() { continue; }
+        let Ok(text) = file.serialize() else { continue };
+        // only documents that are valid in their own version take part
+        if !matches!(AutosarModel::new().load_buffer(text.as_bytes(), "g.arxml", true), Ok((_, w)) if w.is_empty()) { continue; }
+        built += 1;
+        for v in &all_versions {
+            let relabelled = text.replace(v0.filename(), v.filename());
+            let strict = AutosarModel::new().load_buffer(relabelled.as_bytes(), "g.arxml", true);
+            let strict_ok = matches!(&strict, Ok((_, w)) if w.is_empty());
+            let why = match &strict { Err(e) => format!(" ({})", e), _ => String::new() };
+            let (errs, mask) = file.check_version_compatibility(*v);
+            compared += 1;
+            let ctx = format!("{} [{}; built as {:?}, target {}] :: document {}", why, c.what, v0, v.filename(), hex(text.as_bytes()));
+            if errs.is_empty() != strict_ok {
+                println!("FAIL check_version_compatibility lists {} incompatibilities but the relabelled file {} strict validation {}", errs.len(), if strict_ok { "passes" } else { "fails" }, ctx); nfail += 1; if !survey { return; } else { continue 'docs; }
+            }
+            if v.compatible(mask) != strict_ok {
+                println!("FAIL the returned version mask {:#x} {} the target although the relabelled file {} strict validation {}", mask, if v.compatible(mask) { "contains" } else { "lacks" }, if strict_ok { "passes" } else { "fails" }, ctx); nfail += 1; if !survey { return; } else { continue 'docs; }
+            }
+            let m2 = AutosarModel::new();
+            let (f2, _) = m2.load_buffer(text.as_bytes(), "h.arxml", true).unwrap();
+            let sv = f2.set_version(*v).is_ok();
+            if sv != strict_ok { println!("FAIL set_version {} although the relabelled file {} strict validation {}", if sv { "succeeds" } else { "fails" }, if strict_ok { "passes" } else { "fails" }, ctx); nfail += 1; if !survey { return; } else { continue 'docs; } }
+            if sv {
+                let t2 = f2.serialize().unwrap_or_default();
+                if t2 != relabelled { println!("FAIL set_version altered the content {}", ctx); nfail += 1; if !survey { return; } else { continue 'docs; } }
+            } else if f2.version() != v0 || f2.serialize().unwrap_or_default() != text { println!("FAIL a refused set_version changed the file {}", ctx); nfail += 1; if !survey { return; } else { continue 'docs; } }
+        }
+    }
+    if nfail == 0 { println!("OK {} documents={} candidates={}", compared, built, total_cands); } else { println!("SURVEY failures={} documents={} candidates={}", nfail, built, total_cands); }
+}
+
+/// api compat1 <document-hex> <target-schema-file-name> : the oracle of `api compat` on one document and one target version
+fn api_compat1(args: &[String]) {
+    use autosar_data::*;
+    use std::str::FromStr;
+    let doc = unhex(&args[0]);
+    let Ok(v) = AutosarVersion::from_str(&args[1]) else { println!("{{\"outcome\":\"unknown-check\"}}"); return };
+    let m = AutosarModel::new();
+    let (file, _) = match m.load_buffer(&doc, "f.arxml", true) { Ok(x) => x, Err(e) => { println!("{{\"outcome\":\"ok\",\"note\":\"document does not load: {}\"}}", e); return } };
+    let v0 = file.version();
+    let text = String::from_utf8_lossy(&doc).to_string();
+    let relabelled = text.replace(v0.filename(), v.filename());
+    let strict = AutosarModel::new().load_buffer(relabelled.as_bytes(), "g.arxml", true);
+    let strict_ok = matches!(&strict, Ok((_, w)) if w.is_empty());
+    let (errs, mask) = file.check_version_compatibility(v);
+    let sv = { let m2 = AutosarModel::new(); let (f2, _) = m2.load_buffer(&doc, "h.arxml", true).unwrap(); f2.set_version(v).is_ok() };
+    let msg = format!("target {:?}: check_version_compatibility lists {} incompatibilities, mask {:#x} ({} the target), set_version {}; relabelled file strict validation: {}",
+        v, errs.len(), mask, if v.compatible(mask) { "contains" } else { "lacks" }, if sv { "succeeds" } else { "fails" },
+        match &strict { Ok(_) => "passes".to_string(), Err(e) => format!("fails ({})", e) });
+    if errs.is_empty() == strict_ok && v.compatible(mask) == strict_ok && sv == strict_ok { println!("{{\"outcome\":\"ok\",\"note\":{:?}}}", msg); }
+    else { println!("{{\"outcome\":\"panic\",\"message\":{:?}}}", msg); }
+}
+
 pub fn command(cmd: &str, args: &[String]) {
     match cmd {
         "api" if args.get(0).map(|s| s.as_str()) == Some("strictlenient") => api_strict_lenient(&args[1..]),
@@ -379,6 +525,8 @@ pub fn command(cmd: &str, args: &[String]) {
             match strict_lenient_one(&unhex(&args[1])) { Ok(()) => println!("{{\"outcome\":\"ok\"}}"), Err(e) => println!("{{\"outcome\":\"panic\",\"message\":{:?}}}", e) }
         }
         "api" if args.get(0).map(|s| s.as_str()) == Some("sort3") => api_sort3(&args[1..]),
+        "api" if args.get(0).map(|s| s.as_str()) == Some("compat1") => api_compat1(&args[1..]),
+        "api" if args.get(0).map(|s| s.as_str()) == Some("compat") => api_compat(&args[1..]),
         "api" if args.get(0).map(|s| s.as_str()) == Some("sortdocs") => api_sortdocs(&args[1..]),
         "api" if args.get(0).map(|s| s.as_str()) == Some("sortdocs1") => api_sortdocs_text(&args[1]),
         "api" if args.get(0).map(|s| s.as_str()) == Some("lines") => api_lines(&args[1..]),
